@@ -308,7 +308,8 @@ impl Session {
                         o.ret = Ret::Res(Ok(String::new()));
                         if *swap {
                             o.other = Some(std::mem::replace(&mut self.g, l));
-                            self.m.after_reload();
+                            let pos = guarded(|| self.g.snapshot().next_v).unwrap_or(0);
+                            self.m.after_reload(pos);
                         } else {
                             o.other = Some(l);
                         }
@@ -415,13 +416,39 @@ impl Session {
     }
 }
 
+/// Debug/Display end with one line per group slot, `b<k>: {members}`. Which slot number a group
+/// got is not among the things any statement speaks about (C08 lists edges, data, read status and
+/// collections; C20 vertices, edges and data), and it legitimately differs between two graphs that
+/// behave identically (e.g. a slot hint that is not serialised). For comparisons BETWEEN two graphs
+/// the numbers of the group slots (k >= 2) are therefore blanked and those lines sorted; the member
+/// lists themselves are compared. (C20 parses the text of one graph and does not use this.)
+pub fn blank_slot_numbers(txt: &str) -> String {
+    let mut head: Vec<&str> = vec![];
+    let mut slots: Vec<String> = vec![];
+    for line in txt.lines() {
+        let is_slot = line.strip_prefix('b').and_then(|r| r.split_once(": {")).is_some_and(|(k, _)| k.parse::<usize>().is_ok_and(|k| k >= 2));
+        if is_slot {
+            slots.push(format!("b*: {}", line.split_once(": ").map_or("", |x| x.1)));
+        } else {
+            head.push(line);
+        }
+    }
+    slots.sort();
+    let mut out = head.join("\n");
+    for l in slots {
+        out.push('\n');
+        out.push_str(&l);
+    }
+    out
+}
+
 pub fn texts(g: &dyn Graph) -> Texts {
     let keys = g.keys();
     Texts {
         xml: g.to_xml(),
         dot: g.to_dot(),
-        debug: g.debug(),
-        display: g.display(),
+        debug: blank_slot_numbers(&g.debug()),
+        display: blank_slot_numbers(&g.display()),
         inspect: keys.iter().map(|v| (*v, g.inspect(*v))).collect(),
         v_print: keys.iter().map(|v| (*v, g.v_print(*v))).collect(),
     }
@@ -455,7 +482,7 @@ pub fn digest(g: &dyn Graph, levels: u8, labels: &[Label]) -> String {
         }
     }
     if levels & O_TEXT != 0 {
-        out.push_str(&format!("debug={}\ndisplay={}\n", g.debug(), g.display()));
+        out.push_str(&format!("debug={}\ndisplay={}\n", blank_slot_numbers(&g.debug()), blank_slot_numbers(&g.display())));
         out.push_str(&format!("xml={:?}\ndot={}\n", g.to_xml(), g.to_dot()));
     }
     if levels & O_INSPECT != 0 {
